@@ -19,7 +19,7 @@ NOTES = {
 }
 rows = []
 for p in sorted(os.listdir(os.path.join(V, "_incoming"))):
-    for v in ("A", "B", "C", "D"):
+    for v in ("A", "B", "C", "D", "E", "F", "G"):
         src = os.path.join(V, "_incoming", p, v)
         if not os.path.isdir(src):
             continue
